@@ -468,3 +468,7 @@ Proof.
     intros [|[|i]] m H; simpl in H; [| |destruct i; discriminate]; inversion H; subst;
       (eexists; split; [reflexivity|cbn; lia]).
 Qed.
+
+(* a site that describes no host that can be asked (launchers.py without find_launcher, after fixes/C18-3): no launcher *)
+Lemma registry_no_host : forall args, registry_find args [] = None.
+Proof. intros args. apply registry_none. intros r h _ []. Qed.
